@@ -348,6 +348,11 @@ func stripOuter(v tm.Vec) tm.Vec {
 		if kv.K == "isAssertion" || kv.K == "isUnimplemented" || kv.K == "isIssueLink" {
 			continue
 		}
+		// the oserror predicates are defined through Is, which Mark changes by
+		// design (Mark(e, os.ErrNotExist) makes os.IsNotExist true)
+		if strings.HasPrefix(kv.K, "os.Is") {
+			continue
+		}
 		o = append(o, kv)
 	}
 	return o
